@@ -29,8 +29,8 @@ func enrichOrigins(rng *rand.Rand, c *CfgSpec) {
 		oPat(PatSpec{Scheme: "https", Host: "example.com."}, false, false),
 		oPat(PatSpec{Scheme: "https", Subs: true, Host: "example.com."}, false, false),
 		oPat(PatSpec{Scheme: "https", Subs: true, Host: "example.com"}, false, false),
-		oPat(PatSpec{Scheme: "https", Host: "a.example.com"}, false, false),                // subsumed by the previous one
-		oPat(PatSpec{Scheme: "https", Host: "example.com", Port: portAny}, false, false),   // subsumes explicit ports
+		oPat(PatSpec{Scheme: "https", Host: "a.example.com"}, false, false),              // subsumed by the previous one
+		oPat(PatSpec{Scheme: "https", Host: "example.com", Port: portAny}, false, false), // subsumes explicit ports
 		oPat(PatSpec{Scheme: "https", Host: "example.com", Port: 8443}, false, false),
 		oPat(PatSpec{Scheme: "https", Subs: true, Host: "example.com", Port: portAny}, false, false),
 		oPat(PatSpec{Scheme: "https", Subs: true, Host: "example.com", Port: 8443}, false, false),
